@@ -40,10 +40,16 @@ func sxRunes(r []rune) Sx {
 
 var stuckCalls int // calls that did not return (the harness stops generating after a few)
 
+var (
+	intern  map[string]string // texts already queried in the running history
+	queryNo int
+)
+
 func run(in Sx) Sx {
 	t := trie.NewHashTrie()
 	obs := make([]Sx, 0, in.Len())
 	stuck := false
+	intern, queryNo = map[string]string{}, 0
 	// the decoy: another dictionary used in between (package-level state would show)
 	decoy := trie.NewHashTrie()
 	decoyWords := []string{"a", "ab", "*b", "世", "aa", "b*", "abc", "é", "*"}
@@ -117,6 +123,14 @@ func runOp(t *trie.HashTrie, o Sx) (ob Sx) {
 				ob = Ints(int64(t.WordsCount()))
 			case 3:
 				s := string(runesOf(o.At(1)))
+				// a text queried before is passed alternately as the very same string
+				// object and as an equal copy
+				queryNo++
+				if old, ok := intern[s]; ok && queryNo%2 == 0 {
+					s = old
+				} else {
+					intern[s] = s
+				}
 				ob = List(Bool(t.Contains(s)), Bool(t.ExactMatch(s)), sxRunes([]rune(t.Filter(s))))
 			case 4:
 				ob = List(Bool(t.VerifHas(string(runesOf(o.At(1))))))
@@ -468,6 +482,119 @@ func genPhases(rng *Rng, out *Out, n int) {
 	}
 }
 
+// requery: query a text, change the dictionary so that a cheap summary of it (the word
+// count, the last word added, ...) is what it was before while the answer for that text
+// flips, query the same text again — Contains, ExactMatch and Filter alike
+func genRequery(rng *Rng, out *Out, n int) {
+	for h := 0; h < n; h++ {
+		g := &gctx{rng: rng, alpha: []rune{'a', 'b', 'c'}, talph: []rune{'a', 'b', 'c', 'x'}}
+		w1 := g.word(4)
+		if h%5 == 4 {
+			w1 = append([]rune{star}, w1...) // a wildcard word
+		}
+		// an unrelated word over other letters, and bystanders
+		u := &gctx{rng: rng, alpha: []rune{'p', 'q', '世'}}
+		w2, w3 := u.word(4), u.word(3)
+		for string(w3) == string(w2) {
+			w3 = u.word(4)
+		}
+		inst := func(w []rune) []rune { // an instance of w ('*' replaced)
+			r := append([]rune{}, w...)
+			for i := range r {
+				if r[i] == star {
+					r[i] = 'z'
+				}
+			}
+			return r
+		}
+		texts := [][]rune{
+			inst(w1), // ExactMatch flips, too
+			append(append([]rune{'x'}, inst(w1)...), 'x', 'y'),
+			append(append(append([]rune{}, inst(w2)...), 'x'), inst(w1)...),
+		}
+		var ops []Sx
+		code := func(c int) int64 {
+			if rng.Chance(1, 2) {
+				return int64(c + 10) // without a WordsCount() call
+			}
+			return int64(c)
+		}
+		add := func(w []rune) { ops = append(ops, List(Int(code(0)), sxRunes(w))) }
+		rem := func(w []rune) { ops = append(ops, List(Int(code(1)), sxRunes(w))) }
+		ask := func() {
+			for _, x := range texts {
+				ops = append(ops, List(Int(3), sxRunes(x)))
+			}
+			if rng.Bool() { // and once more, back to back
+				ops = append(ops, List(Int(3), sxRunes(texts[rng.Intn(len(texts))])))
+			}
+		}
+		if rng.Bool() {
+			add(w3)
+		}
+		switch h % 6 {
+		case 0: // the matching word leaves, an unrelated one arrives: same count
+			add(w1)
+			ask()
+			rem(w1)
+			add(w2)
+			ask()
+		case 1: // the other way round
+			add(w2)
+			ask()
+			add(w1)
+			rem(w2)
+			ask()
+		case 2: // arrives first, then the other leaves (count passes through +1)
+			add(w1)
+			ask()
+			add(w2)
+			rem(w1)
+			ask()
+			add(w1)
+			rem(w2)
+			ask()
+		case 3: // the same word removed and added again; then removed, re-queried, added
+			add(w1)
+			ask()
+			rem(w1)
+			add(w1)
+			ask()
+			rem(w1)
+			ask()
+			add(w1)
+			ask()
+		case 4: // Reset and refill to the same count with other words
+			add(w1)
+			add(w2)
+			ask()
+			ops = append(ops, List(Int(2)))
+			add(w2)
+			add(w3)
+			ask()
+			ops = append(ops, List(Int(2)))
+			add(w1)
+			add(w3)
+			ask()
+		case 5: // several swaps in a row, lookups only at the ends
+			add(w1)
+			ask()
+			for k := 0; k < 3; k++ {
+				rem(w1)
+				add(w2)
+				rem(w2)
+				add(w1)
+			}
+			rem(w1)
+			add(w2)
+			ask()
+		}
+		ops = append(ops, List(Int(13)), List(Int(4), sxRunes(w1)), List(Int(4), sxRunes(w2)))
+		in := ListOf(ops)
+		out.Case("requery", true, in, run(in))
+	}
+}
+
 func genBytes(rng *Rng, out *Out, n int) {
 	for h := 0; h < n; h++ {
 		var pool []string
@@ -689,6 +816,7 @@ func gen(a Args, out *Out) {
 	}
 	genBytes(rng, out, nb)
 	genPhases(rng, out, nb/2)
+	genRequery(rng, out, nb*3/2)
 	// Go-side exhaustive sweeps over small literal dictionaries
 	ws := allStrings([]rune{'a', 'b'}, 2)[1:] // a b aa ab ba bb
 	sweep(out, "sweep", ws, allStrings([]rune{'a', 'b', 'c'}, 5))
